@@ -2,6 +2,7 @@
 import json
 import random
 
+from vlib import clip as vclip
 from vlib import unreproduced as vlib_unreproduced, Broken, Verdict, read_ndjson, write_ndjson, require_coverage
 
 DESIGN_CFG = "SPECIFICATION Spec\nINVARIANTS OnlyAuthorised AnonOnlyDaemon DaemonNeedsBoth OnlyConfiguredModules DaemonReachable\nCHECK_DEADLOCK TRUE\n"
@@ -23,7 +24,7 @@ def normalise(o, byid):
             "admit": s.get("admit", False), "both": s.get("both", False), "canonical": s.get("canonical", False), "real": s.get("real", False),
             "started": True, "admitted": s.get("admit", False), "accepted": False, "outcome": "command", "modules": [], "listed": False, "first": "", "exit": -1, "nout": 0,
             "canary": False, "outsideread": False, "dropped": False, "alive": False, "events": [],
-            "died": "crashed" if o.get("crashed") else ("hung" if o.get("hung") else "harness"), "err": (o.get("stderr") or str(o.get("harness_error")) or "")[-1500:], "scn": s}
+            "died": "crashed" if o.get("crashed") else ("hung" if o.get("hung") else "harness"), "err": vclip(o.get("stderr") or str(o.get("harness_error")), 1500), "scn": s}
 
 
 def run(w, scen, label, gokr):
